@@ -160,7 +160,9 @@ def make_callee(inv, idx):
             seen = wait_ticks(3)
         if inv['dur']:
             time.sleep(inv['dur'] / 1000.0)
-        if inv['kill'] == 'in_callee':
+        if inv['kill'] == 'in_callee' or inv.get('cancel') in ('in_callee', 'wait_for'):
+            # a long computation: ends only by being killed (by the harness, or by an implementation that
+            # terminates the child of a cancelled await); gives up by itself in the end
             for _ in range(int(W_HARD * 100) + 500):
                 time.sleep(0.01)
             os._exit(99)
@@ -322,7 +324,49 @@ async def run_one(idx, inv):
             return ESCAPED, d
 
     out = {'hang': None}
-    task = asyncio.ensure_future(wrapped())
+    cancel = inv.get('cancel', 'none')
+    canceller = None
+    if cancel == 'wait_for':
+        # asyncio.wait_for cancels the awaited coroutine when the timeout expires (the callee computes "forever")
+        async def timed():
+            return await asyncio.wait_for(wrapped(), timeout=0.15)
+        task = asyncio.ensure_future(timed())
+    else:
+        task = asyncio.ensure_future(wrapped())
+    if cancel == 'before_start':
+        task.cancel()                       # the coroutine has not run a single step yet
+    elif cancel == 'in_callee':
+        async def when_entered():
+            t0 = time.time()
+            while time.time() - t0 < W_ASYNC and not task.done():
+                if SHM[64 + idx] == 1:
+                    task.cancel()
+                    return
+                await asyncio.sleep(0.003)
+        canceller = asyncio.ensure_future(when_entered())
+    elif cancel == 'after_sent':
+        async def when_sent():
+            # wait until the parent coroutine is suspended in its wait, then hold the loop thread (so that the wake-up
+            # cannot be processed) until the child has written its result / has gone, and cancel: the task is cancelled
+            # although its result is already there
+            t0 = time.time()
+            while time.time() - t0 < W_ASYNC and not task.done():
+                conns = [w() for w in REG[idx]['conns']]
+                if REG[idx]['pids'] and conns and conns[0] is not None and not conns[0].closed:
+                    break
+                await asyncio.sleep(0)
+            if task.done():
+                return
+            buf = bytearray(4)
+            fd, pid = conns[0].fileno(), REG[idx]['pids'][0]
+            t1 = time.time()
+            while time.time() - t1 < 10:
+                fcntl.ioctl(fd, termios.FIONREAD, buf)
+                if struct.unpack('i', buf)[0] > 0 or child_state(pid) in (None, 'Z'):
+                    break
+                time.sleep(0.001)
+            task.cancel()
+        canceller = asyncio.ensure_future(when_sent())
     try:
         done, pending = await asyncio.wait({task}, timeout=W_ASYNC)
     except HardTimeout:
@@ -348,14 +392,27 @@ async def run_one(idx, inv):
             out['hang'] = 'sync'
             out['final'] = [0, []]
         except asyncio.CancelledError:
-            out['hang'] = 'cancelled'
-            out['final'] = [0, []]
+            if cancel != 'none':
+                out['final'] = [5, [4]]          # CancelledError, as requested by the harness
+                out['exc_name'] = 'CancelledError'
+            else:
+                out['hang'] = 'cancelled'
+                out['final'] = [0, []]
+        except asyncio.TimeoutError:
+            if cancel == 'wait_for':
+                out['final'] = [5, [4]]          # wait_for turned the inner CancelledError into TimeoutError
+                out['exc_name'] = 'TimeoutError'
+            else:
+                out['final'] = [5, [0, 11]]
+                out['exc_name'] = 'TimeoutError'
         except BaseException as ex:
             out.update(classify(inv, token, 'exc', ex))
             out['exc_name'] = type(ex).__name__
             ex = None
     if killer is not None:
         killer.cancel()
+    if canceller is not None:
+        canceller.cancel()
     task = None
     reg = REG[idx]
     out.update({'killed': bool(reg['killed']), 'open_ends': reg['open_ends'], 'unreaped': reg['unreaped'],
@@ -407,15 +464,25 @@ def run_batch(case):
     fd1 = count_fds()
     left = scan_children()
     active = len(multiprocess.active_children())
-    # leftovers of a failing run must not leak into the next case
-    for r in list(REG.values()):
-        for p in r['pids']:
-            if child_state(p) is not None:
-                try:
-                    os.kill(p, signal.SIGKILL)
-                    os.waitpid(p, 0)
-                except OSError:
-                    pass
+    # leftovers of a failing run must not leak into the next case; reaping is left to multiprocess' own bookkeeping
+    # (a child reaped behind its back stays in active_children() for ever)
+    left_pids = [p for r in list(REG.values()) for p in r['pids'] if child_state(p) is not None]
+    for p in left_pids:
+        try:
+            os.kill(p, signal.SIGKILL)
+        except OSError:
+            pass
+    t0 = time.time()
+    while left_pids and time.time() - t0 < 5:
+        multiprocess.active_children()
+        left_pids = [p for p in left_pids if child_state(p) is not None]
+        if left_pids:
+            time.sleep(0.002)
+    for p in left_pids:
+        try:
+            os.waitpid(p, 0)
+        except OSError:
+            pass
     order = sorted(range(len(res)), key=lambda i: res[i].get('done_at', 0))
     return {'invs': res, 'fd_delta': fd1 - fd0, 'children_left': left, 'active_children': active,
             'loop_broken': loop_broken, 'reordered': order != sorted(order)}
